@@ -271,6 +271,12 @@ func c08run(env *core.Env, idx int) core.CaseResult {
 	if cs.FileOff != 0 {
 		hidden += ",file:" + capfs.MaskString(cs.FileOff, capfs.FileInterfaces)
 	}
+	if cs.Helper == "RemoveAll" {
+		nat := c08native(cs.Base)
+		if exposed := nat &^ cs.Off; exposed&(capfs.FSBit("Remove")|capfs.FSBit("RemoveAll")|capfs.FSBit("Mount")) == 0 {
+			hidden = "no-way-to-remove" // one situation: the file system offers neither Remove nor RemoveAll (nor a mount to delegate to)
+		}
+	}
 	target := ""
 	if !strings.HasPrefix(cs.Helper, "H.") {
 		target = c08targets[cs.ArgIndex]
